@@ -444,7 +444,9 @@ def main():
             print(f["obligation"], "::", f["rendered"])
         print("undecided:", r["undecided"], "verified:", r["verified"], "errors:", r["errors"], "wall %.1f" % r["wall_s"])
         for f in r["functions"]:
-            print("  ", f)
+            if not f["success"] or f["time_us"] > 2000000:
+                print("  ", f)
+        print("   %d functions, slowest: %s" % (len(r["functions"]), sorted([(f["time_us"] // 1000, f["function"]) for f in r["functions"]])[-3:]))
         return 0
     if a.unit:
         r = run_unit(a.unit, a.tier)
